@@ -1851,6 +1851,24 @@ impl NotificationProtocol {
     /// Start [`NotificationProtocol`] event loop.
     pub(crate) async fn run(mut self) {
         tracing::debug!(target: LOG_TARGET, "starting notification event loop");
+        #[cfg(litep2p_verif)]
+        if crate::verif::config_notes_enabled() {
+            crate::verif::note_config(
+                self.service.local_peer_id(),
+                "notif",
+                format!(
+                    "{} sync={} async={} auto={} dial={} hs={} cap={}/{}",
+                    self.protocol,
+                    self.sync_channel_size,
+                    self.async_channel_size,
+                    self.auto_accept,
+                    self.should_dial,
+                    crate::verif::hexd(&self.negotiation.verif_handshake()),
+                    self.command_rx.max_capacity(),
+                    self.notif_tx.max_capacity(),
+                ),
+            );
+        }
 
         while !self.next_event().await {}
     }
